@@ -95,6 +95,10 @@ fn sub<T, E: std::fmt::Debug>(out: &mut GroupOut, f: impl FnOnce() -> Result<T, 
         }
         Caught::Returned(Err(e)) => {
             out.err += 1;
+            if std::env::var_os("C01_TRACE_ERR").is_some() {
+                // for looking into a synthesized input by hand; never set by the check
+                eprintln!("  call {} of the group: Err({:?})", out.ok + out.err, e);
+            }
             if out.first_err.is_empty() {
                 let mut s = format!("{:?}", e);
                 s.truncate(80);
@@ -300,6 +304,10 @@ fn container(out: &mut GroupOut, bytes: &[u8]) {
         }
     }
     facts["prov"] = json!(provs);
+    // member indices further out (one past the end of a collection of three, far beyond any): an answer, never a crash
+    for i in [3usize, 4, 255, 65536, usize::MAX] {
+        sub(out, || fd.table_provider(i).map(|_| ()));
+    }
     if let Some(p) = first {
         let tags = val(out, || p.table_tags()).flatten().unwrap_or_default();
         // woff2 hands the tags back in hash order: sorted here, the judge compares sets
@@ -473,13 +481,51 @@ fn glyph_image<'a>(out: &mut GroupOut, p: &Prov<'a>, log: &RefCell<(BTreeSet<u32
         let n = font.num_glyphs();
         let mut gids = probe_gids(n);
         gids.extend([2u16, 3, 36]);
-        for g in gids {
+        for &g in &gids {
             for ppem in [0u16, 20, 128, 65535] {
                 sub(out, || font.lookup_glyph_image(g, ppem, BitDepth::ThirtyTwo));
             }
             sub(out, || font.lookup_glyph_image(g, 16, BitDepth::One));
         }
+        // every strike the (corrupted) location tables declare, at its own ppem and bit depth, for the glyphs of its
+        // range (first 24 and the last) and the probe glyphs: every index sub-table / image format is decoded
+        let spy = Spy { inner: p, log };
+        for (ppem, depth, first, last) in strikes_of(&spy) {
+            let mut gs: Vec<u16> = (first..=last).take(24).collect();
+            gs.push(last);
+            gs.push(last.wrapping_add(1));
+            gs.push(first.wrapping_sub(1));
+            let mut seen = BTreeSet::new();
+            gs.retain(|g| seen.insert(*g));
+            for g in gs {
+                sub(out, || font.lookup_glyph_image(g, ppem, depth));
+            }
+        }
     }
+}
+
+/// (ppem, bit depth, first glyph, last glyph) of the strikes of CBLC / EBLC (first 16 each) and sbix (ppem only) as the
+/// (corrupted) font declares them; unreadable tables give nothing
+fn strikes_of(p: &impl FontTableProvider) -> Vec<(u16, BitDepth, u16, u16)> {
+    let n = num_glyphs_of(p);
+    let mut v = Vec::new();
+    for loc in [tag::CBLC, tag::EBLC] {
+        if let Caught::Returned(Some(s)) = guarded(|| -> Option<Vec<(u16, BitDepth, u16, u16)>> {
+            let d = p.table_data(loc).ok()??;
+            let t = ReadScope::new(&d).read::<CBLCTable<'_>>().ok()?;
+            Some(t.bitmap_sizes.iter().take(16).map(|s| (u16::from(s.inner.ppem_x), s.inner.bit_depth, s.inner.start_glyph_index, s.inner.end_glyph_index)).collect())
+        }) {
+            v.extend(s);
+        }
+    }
+    if let Caught::Returned(Some(s)) = guarded(|| -> Option<Vec<(u16, BitDepth, u16, u16)>> {
+        let d = p.table_data(tag::SBIX).ok()??;
+        let t = ReadScope::new(&d).read_dep::<SbixTable<'_>>(usize::from(n)).ok()?;
+        Some(t.strikes.iter().take(16).map(|s| (s.ppem, BitDepth::ThirtyTwo, 0, n.saturating_sub(1))).collect())
+    }) {
+        v.extend(s);
+    }
+    v
 }
 
 fn outlines(out: &mut GroupOut, p: &impl FontTableProvider) {
@@ -706,6 +752,19 @@ fn bitmaps(out: &mut GroupOut, p: &impl FontTableProvider) {
                     if let Some(Some(strike)) = val(out, || cblc.find_strike(g, ppem, depth)) {
                         sub(out, || strike.bitmap(&cbdt).map(|b| b.is_some()));
                     }
+                }
+            }
+        }
+        // every strike at its own ppem and depth, the glyphs of its range (first 24 and the last)
+        let strikes: Vec<(u8, BitDepth, u16, u16)> = val(out, || cblc.bitmap_sizes.iter().take(16).map(|s| (s.inner.ppem_x, s.inner.bit_depth, s.inner.start_glyph_index, s.inner.end_glyph_index)).collect()).unwrap_or_default();
+        for (ppem, depth, first, last) in strikes {
+            let mut gs: Vec<u16> = (first..=last).take(24).collect();
+            gs.push(last);
+            let mut seen = BTreeSet::new();
+            gs.retain(|g| seen.insert(*g));
+            for g in gs {
+                if let Some(Some(strike)) = val(out, || cblc.find_strike(g, ppem, depth)) {
+                    sub(out, || strike.bitmap(&cbdt).map(|b| b.is_some()));
                 }
             }
         }
